@@ -1436,6 +1436,35 @@ _sp["level_text"] += (
     "pairwise different span ids, each different from its caller's, and with the caller's trace id (C18_threads_sound: "
     "what an accepted trace guarantees).")
 
+# ---- C14 part seq: the real dispatch over a transport scripted per call (monitor only) ----
+SEQ_PART = {
+    "name": "seq",
+    "harness": "seqt",
+    "gen_args": [],
+    "run_args": [],
+    "cases_header": HDR.format(mods="Transport Checks.C14seq"),
+    "case_term": lambda c: f"({c['cfg']}, {c['ops']}, {c['obs']})",
+    "quick": {"count": 500},
+    "thorough": {"count": 20000},
+    "sweeps": [[]],
+    "nontrivial": has("fault-hit"),
+    "rule": "part seq (monitor only): the real client dispatch over a transport whose answers are scripted PER CALL (the "
+            "k-th poll_ready / poll_flush answers Ok / Pending / Err, the k-th start_send Ok / Err, the k-th poll_next "
+            "Pending / Err / end, then Ok resp. Pending for ever), 3..14 ops over {new call, drop call i, poll the "
+            "dispatch}; this reaches answer sequences inside one dispatch poll that the remote-controlled transport of "
+            "part client cannot produce (poll_ready Pending, then Err after the flush); the per-poll call log is judged "
+            "by Transport.contract_ok (no write without a licence, never after a reported failure or a close, no idle "
+            "poll with unflushed writes, bounded re-polling); non-trivial = a scripted Err answer was reached; thorough "
+            "adds every poll_ready answer string of length <= 3 x poll_flush string of length <= 2 over two op lists",
+    "max_shrinks": 2,
+}
+_sp = SPECS["C14"]
+_sp["parts"] = _sp["parts"] + [SEQ_PART]
+_sp["coq_targets"] = _sp["coq_targets"] + ["Checks/C14seq.vo"]
+_sp["level_text"] += (
+    " Part seq (third session, monitor only): the real dispatch over a transport scripted per call, judged by the same "
+    "contract monitor that C14_client_contract proves the model satisfies over every transport.")
+
 # ---- chain composition (coq/Chain*.v, harness `chain`): parts of C04, C18, C07 ----
 CHAIN_RULE = ("REAL chains of depth 1..3: node i = client::new + BaseChannel::with_defaults(rx).requests() over "
               "transport::channel::unbounded() (client end through a forwarding tap that notes successful writes); the handler "
